@@ -3,6 +3,13 @@
 #ifndef TETL_TYPE_TRAITS_MAKE_UNSIGNED_HPP
 #define TETL_TYPE_TRAITS_MAKE_UNSIGNED_HPP
 
+#include <etl/_type_traits/conditional.hpp>
+#include <etl/_type_traits/is_const.hpp>
+#include <etl/_type_traits/is_enum.hpp>
+#include <etl/_type_traits/is_same.hpp>
+#include <etl/_type_traits/is_volatile.hpp>
+#include <etl/_type_traits/remove_cv.hpp>
+
 namespace etl {
 
 namespace detail {
@@ -60,6 +67,39 @@ struct make_unsigned<unsigned long long> {
     using type = unsigned long long;
 };
 
+template <>
+struct make_unsigned<char> {
+    using type = unsigned char;
+};
+
+// wchar_t, char8_t, char16_t, char32_t and enumerations: the unsigned integer type of smallest rank with the same size
+template <typename T>
+struct make_unsigned_by_size {
+    // clang-format off
+    using type = conditional_t<sizeof(T) == sizeof(unsigned char), unsigned char,
+                 conditional_t<sizeof(T) == sizeof(unsigned short), unsigned short,
+                 conditional_t<sizeof(T) == sizeof(unsigned int), unsigned int,
+                 conditional_t<sizeof(T) == sizeof(unsigned long), unsigned long, unsigned long long>>>>;
+    // clang-format on
+};
+
+template <typename T>
+inline constexpr bool make_unsigned_uses_size
+    = is_enum_v<T> or is_same_v<T, wchar_t> or is_same_v<T, char8_t> or is_same_v<T, char16_t> or is_same_v<T, char32_t>;
+
+template <typename T>
+using make_unsigned_select = conditional_t<make_unsigned_uses_size<T>, make_unsigned_by_size<T>, make_unsigned<T>>;
+
+// the cv-qualifiers of From applied to To
+template <typename From, typename To>
+struct make_unsigned_copy_cv {
+private:
+    using c = conditional_t<is_const_v<From>, To const, To>;
+
+public:
+    using type = conditional_t<is_volatile_v<From>, c volatile, c>;
+};
+
 } // namespace detail
 
 /// \brief If T is an integral (except bool) or enumeration type, provides the
@@ -69,7 +109,10 @@ struct make_unsigned<unsigned long long> {
 /// provided. The behavior of a program that adds specializations for
 /// make_unsigned is undefined.
 template <typename Type>
-struct make_unsigned : etl::detail::make_unsigned<Type> { };
+struct make_unsigned {
+    using type =
+        typename detail::make_unsigned_copy_cv<Type, typename detail::make_unsigned_select<remove_cv_t<Type>>::type>::type;
+};
 
 template <typename T>
 using make_unsigned_t = typename make_unsigned<T>::type;
